@@ -13,7 +13,9 @@ void ERRORreport_with_symbol(enum ErrorCode errnum, Symbol *sym, ...)
 {
     va_list ap; va_start(ap, sym);
     g_rep_calls++; g_rep_errnum = errnum; g_rep_sym = sym;
-    g_rep_a1 = va_arg(ap, const void *); g_rep_a2 = va_arg(ap, const void *);
+    /* conversions per the table formats (error.c): two %s for OVERLOADED_ATTR / MISSING_SUPERTYPE / REDECL_*, one for the loop diagnostics */
+    g_rep_a1 = va_arg(ap, const void *);
+    if (errnum == OVERLOADED_ATTR || errnum == MISSING_SUPERTYPE || errnum == REDECL_NO_SUCH_ATTR || errnum == REDECL_NO_SUCH_SUPERTYPE) g_rep_a2 = va_arg(ap, const void *);
     va_end(ap);
 }
 /* ---- model of the contract of ENTITYget_named_attribute (entity.c): own or inherited attribute of that name ---- */
